@@ -33,10 +33,15 @@ THEOREMS_FOR = {
                "gen_cues_roundtrip_partial", "gen_loops_roundtrip_partial",
                "gen_encodeTrack_eq_hand_partial", "gen_encodeBeat_eq_hand_partial", "gen_encodeOvw_eq_hand_partial",
                "gen_encodeCues_eq_hand_partial", "gen_encodeLoops_eq_hand_partial"]),
+    "C04": _Q(["gen_track_reencode_partial", "gen_beat_reencode_partial", "gen_ovw_reencode_partial",
+               "gen_loops_reencode_partial", "gen_cues_reencode_partial"]),
     "C05": THEOREMS_EQ + _Q(["gen_track_safe", "gen_beat_safe", "gen_ovw_safe_partial", "gen_cues_safe_partial",
                              "gen_loops_safe_partial"]),
 }
 THEOREMS = sorted(set(sum(THEOREMS_FOR.values(), [])))
+# C04's transfer file imports Properties.C04; the other properties do not see it (statement printing context)
+MODULES_FOR = {"C04": LEAN_MODULES + ["Proofs.ImplV2GenC04"]}
+ALL_MODULES = LEAN_MODULES + ["Proofs.ImplV2GenC04"]
 TRUSTED_EXTRA = ["tools/tr_blobs.py (clang-14 JSON AST of src/djinterop/engine/v2/*_blob.cpp -> cursor-monad definitions; "
                  "node-kind -> combinator mapping and C++ struct <-> Lean structure table listed in design/codegen.md)"]
 ASSUMPTIONS = [
@@ -153,5 +158,5 @@ if __name__ == "__main__" and sys.argv[1:2] == ["lock"]:
     lb = audit.lake_build()
     if not lb["ok"]:
         raise SystemExit("lake build failed:\n" + lb["log"])
-    l = audit.write_lock("ImplV2Gen", THEOREMS, imports=tuple(LEAN_MODULES))
+    l = audit.write_lock("ImplV2Gen", THEOREMS, imports=tuple(ALL_MODULES))
     print("locked %d statements (lean/Properties/locks/ImplV2Gen.json)" % len(l))
